@@ -14,6 +14,8 @@ CLAIMED = {
          "Requires a non-empty pool (a caller obligation). Lock operations are no-ops (sequential reading of a lock-protected method).", "§5 C22"),
  "C21": ("Round-robin routing: for every cursor value and pool size 1..2^32 the routed message goes to routees[cursor mod n], exactly one Tell is issued, no index panic, and the cursor advances cyclically (so the k-th message goes to routee (k-1) mod n, also across what used to be the uint32 wrap). Structural obligation: the cursor has a single writer.",
          "Fan-out ('every routee exactly once') and consistent-hash clauses are NOT covered by this check: fan-out Tells are issued from spawned goroutines (delivery is C02's business), the hash-ring lemma is not built. ctx.Tell is an assumed frame (it does not write router fields), backed by the single-writer structural obligation. rand.IntN assumed in [0,n).", "§5 C21"),
+ "C48": ("TTLMap: representation invariant (every mapped key points at a slot of the live region holding that key) preserved by Set/Get/Delete/Reset/ActiveLen/evict; Get finds a key iff it is mapped and not expired and returns the stored value, drops it otherwise; Set stores (v, now+ttl), keeps every other entry or drops it only if expired, never revives; evict never drops a live entry (loop invariants over the index map, generic K/V as uninterpreted sorts).",
+         "maybeCompact's contract (abstract map preserved) is ASSUMED, not yet verified (compaction loops + pigeonhole step) - listed in evidence.assumptions. History statement follows by induction over operations (meta-argument). now+ttl assumed not to overflow. Lock operations are no-ops (sequential reading).", "§5 C48"),
  "C47": ("Bucket window: representation invariant preserved, no index/div panic for any clock value (also backwards), advance clears exactly the buckets it passes (ring-indexed quantified invariant), hard reset, add increments exactly one counter and returns the window totals (recursive sum spec). State machine: record opens exactly when total>=minRequests and float64(fail)/float64(total)>=failureRate (IEEE semantics), closes exactly when probing succeeded; transitionTo arms openUntil only on a real transition to Open; tryAcquire rejects while open until the timeout and admits a probe only by taking a free semaphore slot (<= halfOpenMaxCalls).",
          "Sequential reading of lock-protected methods (Lock/Unlock are no-ops; the representation invariant is a pre/postcondition of every method). Races between concurrent record() calls are not covered. Channel modelled as a counter. time.Time observed through UnixNano only (assumed contracts in contracts/stdlib.spec). uint64 additions assumed not to overflow.", "§5 C47"),
 }
